@@ -95,6 +95,26 @@ def run(ctx):
                 "a filled entry takes every strictly newer position vector") if cov else
                f"no store of the received position vector is reached under the condition `{name}` alone",
                P.func(f"{LTE}.update_position_vector").loc)
+    # an older (or equal) position vector is IGNORED, the packet that carried it is still processed: the entry's update methods
+    # raise for a duplicated sequence number only.  Refusing the packet on timestamp order lets one frame with a timestamp ahead
+    # of the sender's clock silence that station (every later beacon / SHB / CAM is "older" and dropped).
+    lte_cls = P.cls(LTE)
+    n_up = 0
+    for nm, fi_ in sorted(lte_cls.methods.items()):
+        if not (nm.startswith("update_with_") or nm == "update_position_vector"):
+            continue
+        n_up += 1
+        other = []
+        for r_ in [x for x in ast.walk(fi_.node) if isinstance(x, ast.Raise) and x.exc is not None]:
+            cname = (dotted(r_.exc.func) if isinstance(r_.exc, ast.Call) else dotted(r_.exc)) or "?"
+            if cname.split(".")[-1] != "DuplicatedPacketException":
+                other.append((cname, r_.lineno))
+        ctx.ob("C08.newer-only", fi_.short(), "older-pv-ignored-not-refused", not other,
+               "the update raises for a duplicated sequence number only" if not other else
+               f"the update raises {other[0][0]} (line {other[0][1]}): the whole packet is refused because of its position vector's timestamp - "
+               "after one frame stamped ahead of the sender's clock every later packet of that station is dropped", fi_.loc)
+    if n_up < 3:
+        raise AnalysisError(f"C08: only {n_up} update methods found on LocationTableEntry (confirmed: 5)")
     ctx.floor("C08.newer-only", 3, "PV stores + coverage")
 
     # ---- tst order truth table
